@@ -5,6 +5,7 @@ import DryocVerif.Model.Poly1305
 import DryocVerif.Model.SecretStream
 import DryocVerif.Model.Inst
 import DryocVerif.Gen.Stream
+import DryocVerif.Model.ObjectViewStream
 open DryocVerif
 open DryocVerif.Model.SecretStream
 namespace Driver.Stream
@@ -121,6 +122,21 @@ def handle (op : String) (args : List String) : Option Ans :=
       if dir != "push" && dir != "pull" then none
       else some (if gs.any id then "err" else "n/a", "n/a")
     | none => none
+  -- `stream_init_pull_view <key> <header>`: `DryocStream::init_pull` with `Vec<u8>` / `&[u8]` containers
+  -- (`Model/ObjectViewStream.lean`): `panic` if the header has < 24 or the key < 32 bytes, else the state of the prefixes
+  | "stream_init_pull_view", [key, hdr] =>
+    match ofHex key, ofHex hdr with
+    | some key, some hdr =>
+      some ((match Model.ObjectViewStream.objInitPullView prims key hdr with
+             | .ok s => "ok " ++ stHex s | .err => "err" | .panic => "panic"), "n/a")
+    | _, _ => none
+  -- `tag_from_u8 <byte>`: `impl From<u8> for Tag` (`from_bits(..).expect(..)`)
+  | "tag_from_u8", [b] =>
+    match ofHex b with
+    | some [b] =>
+      some ((match Model.ObjectViewStream.tagFromU8 b with
+             | .ok t => "ok " ++ toHex [t] | .err => "err" | .panic => "panic"), "n/a")
+    | _ => none
   | _, _ => none
 
 end Driver.Stream
